@@ -2,6 +2,7 @@ import Marwood.Lemmas.HeapWFOps
 import Marwood.Heap.Check
 import Marwood.Lemmas.SimObs
 import Marwood.Proofs.C13
+import Marwood.Lemmas.VpushAcc
 /-!
 # C03 — garbage collection never reclaims a live object (and what the unobservability proof needs)
 
@@ -723,5 +724,63 @@ example (sched : Nat → Bool) : ∃ s', runSched (machine failingExt false) sch
     sched 1 (Demo.sHalt 0) (Demo.sHalt 1) (sHalt_vmOk _ _) (sHalt_pinv 0) (sHalt_sizeBounded _) rfl
 
 end UnobservableInv
+
+/-! ## VPUSH leaves the reference to the vector in `%acc` (fix 43d0413)
+
+`(define v `#(,(list 1 2)))` followed by a few collections printed `#(#<undefined>)`: VPUSH replaced the pointer
+popped from the stack by the DEREFERENCED vector in `%acc`; MOV then stored that inline `Vector(Rc)` in a global
+slot, which `run_gc` does not follow (global slots are marked only when they are pointers). The by-value heap model
+renders a dereferenced vector as the address-free atom `.opaque "v"` — it has no elements, so no statement of this
+file could see them die: the invariant `Plain` accepts that atom as a value. The executable discipline
+`noInlineVecB` (Vm/InlineCheck.lean: no dereferenced vector in `%acc`, a stack slot, a global slot or a heap
+cell) is evaluated on every real state of the `safe-side-conditions` stream instead. -/
+section Vpush
+open Marwood.Vm Marwood.Vm.Concrete Marwood.Lemmas.Good
+
+/-- **after VPUSH `%acc` is the popped stack cell, a pointer to an allocated vector cell** — not an inline
+    container. Hypotheses: the invariant `GoodI`, the executable discipline `noInlineVecB` on the state before the
+    step, and the law of the unmodelled `vector.push` (it succeeds only on a vector). -/
+theorem vpush_acc_is_pointer (ext : ExtOps) (vl : VecPushLaw ext) (s s' : St CHeap) (b : Bool) (g : GoodI s)
+    (ni : noInlineVecB s = true) (hop : opAt s .vpushAcc) (hs : step (concreteOps ext) s = .ok (s', b)) :
+    ∃ p es, s'.acc = .ptr p ∧ s.stack.cells[s.stack.sp]? = some (.ptr p) ∧
+      s.heap.cells[p]? = some (.vector es) ∧ NF s.heap p ∧ isInlineVec s'.acc = false ∧
+      s'.stack = { s.stack with sp := s.stack.sp - 1 } :=
+  let ⟨p, es, h1, h2, h3, h4, h5⟩ := vpush_acc_ptr vl g ni hop hs
+  ⟨p, es, h1, h2, h3, h4, h5, (vpush_acc_popped hop hs).2.2.1⟩
+
+/-- the same from the bundled machine invariant `VmOk` -/
+theorem vpush_acc_is_pointer_vmOk (ext : ExtOps) (ecl : ExtCodeLawsV ext) (vl : VecPushLaw ext) (s s' : St CHeap)
+    (b : Bool) (h : VmOk ext ecl s) (ni : noInlineVecB s = true) (hop : opAt s .vpushAcc)
+    (hs : step (concreteOps ext) s = .ok (s', b)) :
+    ∃ p es, s'.acc = .ptr p ∧ s.stack.cells[s.stack.sp]? = some (.ptr p) ∧
+      s.heap.cells[p]? = some (.vector es) ∧ NF s.heap p ∧ isInlineVec s'.acc = false ∧
+      s'.stack = { s.stack with sp := s.stack.sp - 1 } :=
+  vpush_acc_is_pointer ext vl s s' b h.1 ni hop hs
+
+/-- with no hypothesis at all: `%acc` after VPUSH is the cell that was on top of the live stack -/
+theorem vpush_acc_is_popped_cell (ext : ExtOps) (s s' : St CHeap) (b : Bool) (hop : opAt s .vpushAcc)
+    (hs : step (concreteOps ext) s = .ok (s', b)) :
+    0 < s.stack.sp ∧ s.stack.cells[s.stack.sp]? = some s'.acc ∧ s'.stack = { s.stack with sp := s.stack.sp - 1 } :=
+  let h := vpush_acc_popped hop hs
+  ⟨h.1, h.2.1, h.2.2.1⟩
+
+open VpushWitness in
+/-- **pinned counter-witness**: the VPUSH arm as it was before the fix (`stepVpushPinned`), on a four-cell heap
+    with the code `VPUSH; HALT`, an empty vector at cell 1 and `Ptr 1` on top of the stack: the state satisfies
+    the discipline, the old arm succeeds and leaves the INLINE vector in `%acc` (not `Ptr 1`), the discipline
+    fails on its successor; the model's arm (the repaired code) keeps `Ptr 1` and the discipline. -/
+theorem vpush_acc_inline_pinned :
+    noInlineVecB s0 = true ∧
+    accAfter (stepVpushPinned (concreteOps extPush) { s0 with ipO := 1 }) = some (.opaque "v") ∧
+    checkAfter (stepVpushPinned (concreteOps extPush) { s0 with ipO := 1 }) = some false ∧
+    accAfter (step (concreteOps extPush) s0) = some (.ptr 1) ∧
+    checkAfter (step (concreteOps extPush) s0) = some true :=
+  vpush_pinned_inline
+
+/-- the law of the unmodelled push is satisfiable -/
+example : VecPushLaw VpushWitness.extPush := VpushWitness.extPush_law
+
+
+end Vpush
 
 end Marwood.Proofs.C03
